@@ -17,6 +17,28 @@ CHECKS = {
          "Control<Rule>::match invocation, hidden internal rules included) and the property is also evaluated directly on the implementation's own trace."),
    note=GENERAL_NOTE + " Modelled so far: core, convenience and try_catch/must rules and all one-argument ascii atoms; contrib rules (integer, raw_string, rep_one_min_max, predicates, http chunk) are covered by their own leaf models where claimed, not yet by this invariant.",
    technique="Lean 4 proof by invariant closure + induction on fuel over an executable model; differential correspondence on generated C++ grammars; trace oracle"),
+ 'C01': dict(engine='matcher-model', design_ref='DESIGN.md §6 C01',
+   text=("Proof (Lean 4): `run` (the model of Control<Rule>::match / match.hpp / every internal match() body) refines the big-step PEG formalism Sem (ordered choice, greedy "
+         "repetition, predicates consume nothing): for every table meeting the stated conditions (atoms whose meaning depends on the byte offset only, void actions), every input, "
+         "apply mode, rewind mode and fuel, the result and the consumed prefix are the ones Sem derives (C01_sound, by induction on fuel over closure lemmas for all rule kinds); Sem is "
+         "deterministic (so 'exactly'); consequently the outcome is independent of apply mode, requested rewind mode, attached void actions, control visibility and fuel (C01_independent). "
+         "Termination whenever Sem derives an outcome (completeness) is not yet part of the registered theorems. The model is tied to /repo by the full-trace differential run; the "
+         "independent oracle is the spec evaluator semEval (proved sound for Sem) against the real result."),
+   note=GENERAL_NOTE + " The completeness direction (Sem derives an outcome => the run terminates) is so far only explored (every corpus case on which semEval terminates is compared), not proved.",
+   technique="Lean 4 refinement proof (model => PEG big-step semantics) + determinism; differential correspondence; spec-evaluator oracle"),
+ 'C09': dict(engine='matcher-model', design_ref='DESIGN.md §6 C09',
+   text=("Proof (Lean 4): every hand-optimised match() body (until, rep, rep_min_max, rep_opt, if_then_else, strict, star_strict, plus, partial, star_partial, rematch, must, if_must/opt_must, "
+         "try_catch_*, enable/disable) refines, in the PEG formalism with labelled failures, the documented expansion of its rule (Spec.expandKind): same accepted inputs, same consumed prefix, "
+         "same blamed rule (C09_refines, C09_exact); where the reference gives two expansions they are proved equivalent (C09_two_forms_*). Alias rules (list*, pad*, minus, rep_min, rep_max, "
+         "star_must, if_must_else, keyword, identifier, shebang, ...) are the same C++ type as their expansion; the resolver expands them like the using-declarations and the differential run checks it."),
+   note=GENERAL_NOTE + " expandKind is transcribed by hand from doc/Rule-Reference.md (a mismatch with the code shows up in the semEval oracle, a mismatch with the doc would not). string/istring/ranges/rep_one_min_max/rep_string/separated_seq/if_then equivalences are not yet covered by a theorem.",
+   technique="Lean 4 refinement proof of each optimised rule body into the PEG semantics of its documented expansion; differential correspondence; spec-evaluator oracle"),
+ 'C16': dict(engine='leaf-rawstring', design_ref='DESIGN.md §6 C16',
+   text=("Proof (Lean 4): for the model of contrib/raw_string.hpp, raw_string matches iff a Lua long literal of some level starts at the cursor; it consumes through the first same-level closer; "
+         "the content action gets the text between the brackets minus one leading eol; other-level brackets are ignored; a failure under required restores the cursor — for all inputs, offsets, "
+         "the 5 eol policies, all Open != Marker and any Close, and for arbitrary content rules satisfying RuleOK."),
+   note=GENERAL_NOTE + " Tie: exhaustive up to length 7 (quick) / 8 (thorough) over a 6-symbol alphabet for 4 bracket triples x 4 content variants x 5 eol policies, plus random. Exceptions thrown by Contents and content rules that succeed without consuming are not modelled.",
+   technique="Lean 4 proof about a hand-written executable model + differential correspondence under ASan/UBSan + independent Python long-bracket scanner"),
  'C17': dict(engine='leaf-unescape', design_ref='DESIGN.md §6 C17',
    text=("Proof (Lean 4): for every natural cp, scalar => exactly the Table 3-6 UTF-8 encoding is appended, non-scalar => refused and nothing appended; the output is the unique "
          "Table 3-7 well-formed sequence; unescape_j = UTF-16 decoding (pairs combined, lone surrogates rejected) for any non-empty sequence of 4-hex-digit escapes; "
@@ -33,13 +55,13 @@ CHECKS = {
 }
 
 PENDING = {
- 'C01': "check under construction in this round (soundness/completeness proof of run vs Sem not yet registered)",
+ '_C01': "check under construction in this round (soundness/completeness proof of run vs Sem not yet registered)",
  'C03': "check under construction (out-of-window invariant and ASan/hook run not yet registered)",
  'C04': "check under construction", 'C05': "check under construction", 'C06': "check under construction",
- 'C07': "check under construction", 'C08': "check under construction", 'C09': "check under construction",
+ 'C07': "check under construction", 'C08': "check under construction", '_C09': "check under construction",
  'C10': "check under construction (leaf model being built)", 'C11': "check under construction", 'C12': "check under construction",
  'C13': "check under construction", 'C14': "check under construction", 'C15': "check under construction (leaf model being built)",
- 'C16': "check under construction (leaf model being built)", 'C18': "check under construction", 'C20': "check under construction",
+ '_C16': "check under construction (leaf model being built)", 'C18': "check under construction", 'C20': "check under construction",
 }
 
 def main():
